@@ -268,8 +268,15 @@ def check_rename(ctx: Context, rep, rule: str) -> None:
            message="temp file opened for (over)write, not append")
     # relative path recorded
     fis = [c for c in fn.calls() if ctx.is_call(fn, c, "file_info.FileInfo")]
+    def is_rel(e):
+        if dotted(e) == "relative_path":
+            return True
+        return isinstance(e, ast.Call) and ast.unparse(e.func) in (
+            "Path", "pathlib.Path", "PurePath") and len(e.args) == 1 and \
+            dotted(e.args[0]) == "relative_path"
+
     rep.ob(rule, bool(fis) and all(
-        dotted(ctx.arg(c, 0, "file_path")) == "relative_path" for c in fis),
+        is_rel(ctx.arg(c, 0, "file_path")) for c in fis),
            loc=fn.loc(), where=fn.qualname,
            construct="FileInfo(file_path=relative_path, ...)",
            message="the returned record names the file that was written")
